@@ -4,7 +4,8 @@ the Runner model on the projection proj_C01; the property oracle (harness/oracle
 import runner_common as rc
 
 LEVEL = "proof"
-OPTS = {"p_cap_mix": 0.35}
+# every way of reaching the retry loop without a breaker: the caps are configuration, whoever builds the policy
+OPTS = {"p_cap_mix": 0.35, "entries": ["retry", "retry", "retry.ctx", "retrypolicy", "retrypolicy.ctx", "decorator"]}
 
 
 def run(chk):
